@@ -1,20 +1,20 @@
 SPECIFICATION Spec
 CONSTANTS
-  Specs = {"r", "a", "b", "d", "j", "g", "m"}
-  WithItems = {"r", "a", "b"}
+  Specs = {"r", "a", "b", "d", "j", "m"}
+  WithItems = {"r", "b"}
   Big = {"r"}
   MaxRoot = 2
   MaxOther = 1
-  Forms = {"static", "dynamic", "type"}
-  Targets = {"a", "b", "j", "g", "m"}
-  Sp1 = {"j"}
+  Forms = {"static", "sidefx", "export", "dynamic", "type", "jsdoc"}
+  Targets = {"a", "b", "j", "m", "!bad"}
+  Sp1 = {"a"}
   MayMiss = {"m"}
   MayRedirect = {}
   MayErr = {}
   RootChoices <- Roots_r
   SelfTypes <- ST_bd
-  TsTypes = {}
-  JsonAttr = FALSE
+  TsTypes = {"d"}
+  JsonAttr = TRUE
   Emit = TRUE
   Edits = FALSE
 INVARIANT NoPendingInv
